@@ -314,8 +314,58 @@ fn op_async(toks: &[Tok], prop: &str) -> Outcome {
     Outcome { result: w.0, oracle }
 }
 
+/// 43 READ_BIG: nrec records of declared length l (zero payload), then a tail: a stream longer than the BufReader
+fn op_read_big(toks: &[Tok], prop: &str) -> Outcome {
+    let mut r = R::new(toks);
+    let is_async = r.bool();
+    let sh = r.bool();
+    let f = r.opt_filter();
+    let cap = cap_of(r.n());
+    let n = r.n();
+    let sched: Vec<u64> = (0..n).map(|_| r.n() as u64).collect();
+    let l1 = r.n() as usize;
+    let nrec = r.n() as usize;
+    let l = r.n() as usize;
+    let tail = r.b();
+    let storage = if sh { 16 } else { 0 };
+    let record = |l: usize| -> Vec<u8> {
+        let mut one = vec![0u8; storage + l];
+        if sh {
+            one[..4].copy_from_slice(b"DLT\x01");
+        }
+        one[storage] = 0x20;
+        one[storage + 2] = (l >> 8) as u8;
+        one[storage + 3] = l as u8;
+        one
+    };
+    let one = record(l);
+    let mut data = Vec::with_capacity(nrec * one.len() + tail.len() + storage + l1);
+    if l1 != 0 {
+        data.extend_from_slice(&record(l1));
+    }
+    for _ in 0..nrec {
+        data.extend_from_slice(&one);
+    }
+    data.extend_from_slice(&tail);
+    let (obs, fin) = if is_async { run_async(sh, &f, cap, 0, &sched, &data) } else { run_blocking_mml(sh, &f, cap, 0, &sched, &data) };
+    let mut w = W::new();
+    w_obs_list(&mut w, &obs, fin);
+    let mut oracle = vec![];
+    if prop == "C07" || prop == "C08" {
+        if obs.contains(&Obs::Panic) {
+            oracle.push(("no_panic".into(), format!("the reader panicked after {} outcomes", obs.len() - 1)));
+        }
+        let want = slicing(sh, &f, &data);
+        if obs != want {
+            oracle.push(("equals_slicing".into(), format!("reader outcomes {} differ from cutting at the declared lengths {}", &describe(&obs)[..describe(&obs).len().min(200)], &describe(&want)[..describe(&want).len().min(200)])));
+        }
+    }
+    Outcome { result: w.0, oracle }
+}
+
 pub fn run_case4(prop: &str, op: u32, toks: &[Tok]) -> Outcome {
     match op {
+        43 => op_read_big(toks, prop),
         40 => op_read(toks, prop),
         41 => op_async(toks, prop),
         _ => crate::ops5::run_case5(prop, op, toks),
